@@ -166,40 +166,59 @@ def _binds(f):
 
 
 def top_run(fns, table, comb, N):
+    """shape obligations on the four top-level productions.  A shape that is KNOWN to break the argument is a failure;
+    a production that is missing or written in a form these rules do not know is a reason for indecision, never an alarm."""
     failures = []
+    undecided = []
     checked = 0
     pairs = [('source_text', 'source_text_incomplete', 'description'), ('library_text', 'library_text_incomplete', 'library_description')]
+    FALLIBLE = {'many1', 'tuple', 'pair', 'triple', 'terminated', 'preceded', 'alt', 'many_till', 'map', 'all_consuming'}
+
+    def is_call(e, name, args=None):
+        return e[0] == 'call' and e[1] == ('var', name) and (args is None or e[2] == args)
     for strict, inc, item in pairs:
         fs, fi = table.get(strict), table.get(inc)
         if fs is None or fi is None:
-            failures.append(fail(strict, 'top.missing.%s' % strict, 'top-level production not found', ['C01', 'C15'], None))
+            undecided.append('top-level production %s / %s not found (anchor lost): the shape rules of C15/C01 do not apply to this tree' % (strict, inc))
             continue
         bs, bi = _binds(fs), _binds(fi)
+        if not bs or not bi:
+            undecided.append('%s / %s are not sequences of binds any more (unknown shape)' % (strict, inc))
+            continue
         checked += 4
         # leading trivia is taken first, once
-        for f, b in ((fs, bs), (fi, bi)):
-            if not b or b[0][1] != ('call', ('var', 'many0'), [('var', 'white_space')]):
-                failures.append(fail(f.name, 'top.%s.leading-trivia-first' % f.name, 'the production does not start with many0(white_space)', ['C01'], f))
+        for f, b_ in ((fs, bs), (fi, bi)):
+            if not is_call(b_[0][1], 'many0', [('var', 'white_space')]):
+                undecided.append('%s does not start with many0(white_space) (unknown shape)' % f.name)
         # strict: ... many_till(item, eof) last  => coverage up to the end of the text
-        if not bs or bs[-1][1] != ('call', ('var', 'many_till'), [('var', item), ('var', 'eof')]):
-            failures.append(fail(strict, 'top.%s.reads-to-eof' % strict, 'the strict production does not end with many_till(%s, eof)' % item, ['C01', 'C15'], fs))
+        if not is_call(bs[-1][1], 'many_till', [('var', item), ('var', 'eof')]):
+            if is_call(bs[-1][1], 'many0') or is_call(bs[-1][1], 'many1'):
+                failures.append(fail(strict, 'top.%s.reads-to-eof' % strict, 'the strict production ends with a repetition that stops at the first unparsable text instead of many_till(%s, eof)' % item, ['C01', 'C15'], fs))
+            else:
+                undecided.append('%s does not end with many_till(%s, eof) (unknown shape)' % (strict, item))
         # incomplete: same binds, last one many0(item); every bind is many0/opt => cannot fail
-        if not bi or bi[-1][1] != ('call', ('var', 'many0'), [('var', item)]):
-            failures.append(fail(inc, 'top.%s.prefix-of-descriptions' % inc, 'the incomplete production does not end with many0(%s)' % item, ['C15', 'C01'], fi))
+        if not is_call(bi[-1][1], 'many0', [('var', item)]):
+            if is_call(bi[-1][1], 'many_till') or is_call(bi[-1][1], 'many1'):
+                failures.append(fail(inc, 'top.%s.prefix-of-descriptions' % inc, 'the incomplete production ends with a repetition that can fail instead of many0(%s)' % item, ['C15', 'C01'], fi))
+            else:
+                undecided.append('%s does not end with many0(%s) (unknown shape)' % (inc, item))
         if [x[1] for x in bs[:-1]] != [x[1] for x in bi[:-1]] or len(bs) != len(bi):
             failures.append(fail(inc, 'top.%s.same-as-strict-except-last' % inc, 'strict and incomplete productions differ before the final repetition', ['C15'], fi))
         for pat, e in bi:
-            if not (e[0] == 'call' and e[1] in (('var', 'many0'), ('var', 'opt'))):
+            if e[0] == 'call' and e[1] in (('var', 'many0'), ('var', 'opt')):
+                if e[1] == ('var', 'many0'):
+                    from .analyses import nullable_expr as ne
+                    if ne(e[2][0], N, {}):
+                        failures.append(fail(inc, 'top.%s.many0-of-nullable' % inc, 'many0 of a nullable parser fails', ['C15'], fi))
+            elif (e[0] == 'call' and e[1][0] == 'var' and (e[1][1] in FALLIBLE or e[1][1] in table)) or (e[0] == 'var' and e[1] in table):
                 failures.append(fail(inc, 'top.%s.only-many0-and-opt' % inc, 'a step of the incomplete production can fail', ['C15'], fi))
-            elif e[1] == ('var', 'many0'):
-                from .analyses import nullable_expr as ne
-                if ne(e[2][0], N, {}):
-                    failures.append(fail(inc, 'top.%s.many0-of-nullable' % inc, 'many0 of a nullable parser fails', ['C15'], fi))
+            else:
+                undecided.append('%s: a step is neither many0(..) nor opt(..) nor a known fallible parser (unknown shape)' % inc)
         # the result keeps the binds in order
         rs, ri = fs.ast[1][-1], fi.ast[1][-1]
         if str(rs) .replace('SourceText', 'X') != str(ri).replace('SourceText', 'X'):
             failures.append(fail(inc, 'top.%s.same-result-shape' % inc, 'strict and incomplete productions build different values', ['C15'], fi))
-    return dict(failures=failures, checked=checked)
+    return dict(failures=failures, checked=checked, undecided=undecided)
 
 
 def no_failure_run(fns):
@@ -265,7 +284,7 @@ def entries_check(lib_raw=None):
     if len(entries) < 5:
         failures.append(fail('-', 'C07.entries-found', 'fewer than five public parser entries found (anchor lost)', ['C07', 'C15'], None))
     for name, body in entries:
-        if not re.sub(r'\s+', '', body).startswith('init();'):
+        if not re.match(r'init\([^;]*\);', re.sub(r'\s+', '', body)):
             failures.append(fail(name, 'C07.entry-calls-init-first.%s' % name, 'public entry %s does not call init() first' % name, ['C07', 'C17', 'C15'], Dummy('sv-parser-parser/src/lib.rs', lib_raw[:lib_raw.index('pub fn ' + name)].count('\n') + 1)))
     return dict(failures=failures, checked=checked)
 
@@ -462,7 +481,7 @@ def effects_run(fns, table, comb):
     # ---- C07: init() resets everything and every entry calls it first
     init = by_name.get('init')
     lib_raw = open(os.path.join(REPO, 'sv-parser-parser/src/lib.rs')).read()
-    m = re.search(r'fn init\(\)\s*\{([^}]*)\}', lib_raw)
+    m = re.search(r'fn init\([^)]*\)\s*\{([^}]*)\}', lib_raw)
     init_body = re.sub(r'\s+', '', m.group(1)) if m else ''
     checked += 1
     for need in ('nom_packrat::init!();', 'clear_directive();', 'clear_version();'):
